@@ -912,6 +912,19 @@ package leveldb
 //@   mode bv
 //@   ensures recHas(p.hasRec, recSeqNum) && p.seqNum == num && recHas(p.hasRec, recJournalNum) == old(recHas(p.hasRec, recJournalNum)) && p.hasRec == (old(p.hasRec) | (1 << recSeqNum))
 //@   modifies p.hasRec, p.seqNum
+// C08 (and C18's "the storage becomes available again"): once the recovery's commit has succeeded the open has succeeded: the journal just created stays with
+// the DB that is returned. Failing afterwards - because the replayed journal, now obsolete, could not be removed -
+// returned an error with that journal's writer still open: the storage did not come back (the next Open found the
+// file still open), although the janitor removes obsolete journals anyway (F31).
+//@ ghost var gRecoveryCommitted bool
+//@ func (*DB).recoverJournal
+//@   props C08
+//@   at entry
+//@     ghost gRecoveryCommitted = false
+//@   at call (*session).commit#2
+//@     ghost gRecoveryCommitted = result == nil
+//@   ensures [C08:a-recovery-whose-commit-succeeded-does-not-fail-afterwards] gRecoveryCommitted ==> result == nil
+
 //@ func (*DB).recoverJournal
 //@   props C04 C07 C08 C01
 //@   at call (*session).markFileNum#1
@@ -1460,6 +1473,12 @@ package leveldb
 //@   safety off
 //@   requires db.closed != 0
 //@   ensures [C18:closed-means-closed] result == ErrClosed && calls("storage.Storage.Create") == old(calls("storage.Storage.Create")) && calls("storage.Storage.Remove") == old(calls("storage.Storage.Remove")) && calls("storage.Storage.Rename") == old(calls("storage.Storage.Rename")) && calls("storage.Storage.SetMeta") == old(calls("storage.Storage.SetMeta"))
+
+// A released snapshot has no list element any more: printing it must not dereference one (F32).
+//@ func (*Snapshot).String
+//@   props C18
+//@   safety on
+//@   requires (snap.released ==> snap.elem == nil) && (!snap.released ==> snap.elem != nil)
 
 // Released snapshots and finished transactions report their own errors; a snapshot of a closed DB the closed error.
 //@ func (*Snapshot).Get
